@@ -762,6 +762,18 @@ func (c *client) recv(ctx context.Context, rid uint32, w *waiter) (res *protocol
 		res = p
 	case <-ctx.Done():
 		err = errors.Errorf("wait for %d response timeout", rid)
+	case <-c.closeCh:
+		// the client was closed by its user: nothing will answer any more. Returning now also releases the
+		// read lock this call holds, which a pending recovery - and, behind it, Close itself - waits for
+		select {
+		case p, ok := <-w.ch:
+			if ok {
+				res = p
+				return
+			}
+		default:
+		}
+		err = errClientClosed
 	}
 
 	return
